@@ -41,7 +41,6 @@ open Gwb
 #print axioms C08_ridge_lon_offset_same_sign
 #print axioms C08_bbox_lon_offset_general_old_false
 #print axioms C08_ridge_lon_offset_inrange_full_false
-#print axioms C08_ridge_lon_offset_full_false
 #check @C08_longitude_alias_same_point
 #check @C08_longitude_plus_minus_two_pi
 #check @C08_longitude_alias_same_answer
@@ -83,4 +82,3 @@ open Gwb
 #check @C08_ridge_lon_offset_same_sign
 #check @C08_bbox_lon_offset_general_old_false
 #check @C08_ridge_lon_offset_inrange_full_false
-#check @C08_ridge_lon_offset_full_false
